@@ -15,6 +15,7 @@ completed simulate), B3 (no completed simulate -> reads raise).
 
 from __future__ import annotations
 
+import copy
 import hashlib
 import warnings
 
@@ -389,9 +390,16 @@ class Runner:
 
     @staticmethod
     def _state(res):
-        d = getattr(res, "__dict__", {})
-        t = d.get("time", None)
-        pp = d.get("pseudopressure", None)
+        # public attributes, however the tree stores them (plain attributes, properties over private state, ...);
+        # a getter that raises means "not there"
+        try:
+            t = getattr(res, "time", None)
+        except Exception:  # noqa: BLE001
+            t = None
+        try:
+            pp = getattr(res, "pseudopressure", None)
+        except Exception:  # noqa: BLE001
+            pp = None
         try:
             t = None if t is None else np.array(t, dtype=float)
         except Exception:  # noqa: BLE001
@@ -433,6 +441,8 @@ class Runner:
     # ------------------------------------------------------------- main loop
     def run(self):
         ns, scn = self.ns.fresh(), self.scn  # the scenario's own instance of the library modules
+        if scn.get("canary"):
+            _install_canary(ns)               # objects under test only; references stay on the plain library
         fluids, tables = [], []
         for fs in scn["fluids"]:
             fl, tb = world.make_fluid(ns, fs, self.repo_root)
@@ -597,8 +607,9 @@ class Runner:
                         cands[k] = new[:8]
                     else:
                         survivors, first_diff, first_f = [], None, None
+                        need_undo = len(cands[k]) > 1 or pending_fail[k]
                         for c in cands[k]:
-                            saved = dict(c.__dict__)
+                            saved = copy.deepcopy(c.__dict__) if need_undo else None
                             out_f, _ = self._call(c, op, None)
                             d = self._out_eq(out_r, out_f)
                             if d is None:
@@ -610,8 +621,9 @@ class Runner:
                             else:
                                 if first_diff is None:
                                     first_diff, first_f = d, out_f
-                                c.__dict__.clear()
-                                c.__dict__.update(saved)
+                                if saved is not None:
+                                    c.__dict__.clear()
+                                    c.__dict__.update(saved)
                         if survivors:
                             cands[k] = survivors
                         elif pending_fail[k] and not out_r.ok:
@@ -655,9 +667,7 @@ class Runner:
         return {"cls": self.scn["objects"][k]["cls"], "prev_sim": last_sim_kind[k]}
 
     def _clone_ref(self, c):
-        new = object.__new__(type(c))
-        new.__dict__.update(c.__dict__)
-        return new
+        return copy.deepcopy(c)
 
     def _fluid_surface(self, f):
         try:
@@ -739,6 +749,33 @@ ID = "C10"
 LEVEL = "exploration"
 
 
+CANARY = ("the scenario's library instance is patched so that simulate() puts the previously cached recovery back "
+          "(the defect repaired in 3c20ca9): histories with a cached recovery, a second simulate and an interpolator must be flagged")
+
+
+def _install_canary(lib):
+    for name in ("IdealReservoir", "SinglePhaseReservoir"):
+        cls = getattr(lib, name)
+        orig = cls.__dict__.get("simulate")
+        if orig is None:
+            continue
+
+        def sim(self, *a, _orig=orig, **k):
+            try:
+                stale = getattr(self, "recovery", None)
+            except Exception:  # noqa: BLE001
+                stale = None
+            r = _orig(self, *a, **k)
+            if stale is not None:
+                try:
+                    self.recovery = stale
+                except Exception:  # noqa: BLE001
+                    pass
+            return r
+
+        setattr(cls, "simulate", sim)
+
+
 def scenario_for(k, batch_seed, tier, repo_root, opts=None):
     from dst import seeds
 
@@ -751,6 +788,9 @@ def scenario_for(k, batch_seed, tier, repo_root, opts=None):
         idx = [i for i, op in enumerate(scn["ops"]) if (op.get("fault") or {}).get("kind") == "F-crash-line"]
         if idx:
             scn["sweep"] = {"op_index": idx[0]}
+    if (opts or {}).get("canary"):
+        scn["canary"] = True
+        scn.pop("sweep", None)
     return scn
 
 
